@@ -278,7 +278,7 @@ func (in *Interp) abiDecodeArg(t abiType, idx int, data SliceV, nextTail *int) (
 			// readInteger takes the low bytes and ignores the rest of the word
 			return cat(word[32-t.Size/8:]), nil
 		default:
-			return BigV{tt.Bv2Nat(cat(word))}, nil
+			return BigV{in.dropMod(tt.Bv2Nat(cat(word)))}, nil
 		}
 	case "bool":
 		zero := tt.True
